@@ -27,7 +27,7 @@ func replaySystem(t *testing.T, checkExistence bool) (*Context, *System, *cron.C
 }
 
 // D32: a cache hit skips the existence check.
-func TestReplayD32CacheHitSkipsExistence(t *testing.T) {
+func TestFixedD32CacheHitChecksExistence(t *testing.T) {
 	ctx, sys, _ := replaySystem(t, true)
 	if _, err := sys.AddFact(ctx, "ghost", "", `{"x":1}`); err == nil {
 		t.Fatalf("a never-created location accepted a fact with CheckExistence on (before any unchecked open)")
@@ -36,9 +36,18 @@ func TestReplayD32CacheHitSkipsExistence(t *testing.T) {
 	if _, err := sys.GetLocation(ctx, "ghost"); err != nil {
 		t.Fatal(err)
 	}
-	// ... and from then on the existence check is skipped:
-	if _, err := sys.AddFact(ctx, "ghost", "", `{"x":1}`); err != nil {
-		t.Fatalf("the known finding D32 seems to be gone (AddFact refused: %v): update known_findings.json", err)
+	// ... and the existence check must still be made on the cache hit:
+	if _, err := sys.AddFact(ctx, "ghost", "", `{"x":1}`); err == nil {
+		t.Fatalf("a cached, never-created location accepted a fact with CheckExistence on (D32)")
+	}
+	// a created location keeps working through the cache
+	if _, err := sys.CreateLocation(ctx, "real"); err != nil {
+		t.Fatal(err)
+	}
+	for i := 0; i < 2; i++ {
+		if _, err := sys.AddFact(ctx, "real", "", `{"x":1}`); err != nil {
+			t.Fatalf("created location refused a fact: %v", err)
+		}
 	}
 }
 
